@@ -131,13 +131,24 @@ def main():
             ref = reference_dense(op)
         tried += 1
         k = int(rng.integers(1, 4))
+        if kind == "Sum" and op.shape[0] == op.shape[1] and t % 2 == 0:
+            # an Identity first term: Identity._matmat returns the operand itself, so an in-place accumulation corrupts it
+            from cola.ops import operators as O
+            op = O.Sum(O.Identity(op.shape, op.dtype), *op.Ms)
+            ref = np.eye(op.shape[0]) + ref
+        X0 = None
         try:
             if method == "to_dense":
                 got, want = op.to_dense(), ref
             elif method in ("_matmat", "__matmul__"):
                 X = K.rand(rng, op.shape[1], k, dtype=xdt) if c.get("operand") != "1d" else K.rand(rng, op.shape[1], dtype=xdt)
+                X0 = X.copy()
                 got = op._matmat(X) if method == "_matmat" else op @ X
-                want = ref @ X
+                want = ref @ X0
+                if not np.array_equal(X, X0):
+                    print(json.dumps(dict(replayed=True, failing_input_found=True, trial=t, clause="operand unchanged", observed="the caller's operand X was overwritten by the product",
+                                          expected="X bit-identical after A @ X", operator=repr(op), how="real method on a concrete operator")))
+                    return
             else:
                 X = K.rand(rng, k, op.shape[0], dtype=xdt) if c.get("operand") != "1d" else K.rand(rng, op.shape[0], dtype=xdt)
                 got = op._rmatmat(X) if method == "_rmatmat" else X @ op
